@@ -41,6 +41,7 @@ type G struct {
 	sweep    bool
 	inDomain bool
 	dates    [][3]int // when non-empty: the next civil dates to hand out (dense date histories)
+	pin32    *uint32  // when set: the value of every free 32-bit argument (a setter fed with what a getter returned)
 }
 
 var serialPool = []uint32{1, 0xff, 0x100, 0x10000, 0x01000000, 0xffffffff, 405419896, 0x80000000, 0x7fffffff, 303986753, 201020304, 405419896, 303986753}
@@ -74,6 +75,9 @@ func (g *G) u8b(k int) uint8 {
 var u32Pool = []uint32{0, 1, 0xff, 0x100, 0xffff, 0x10000, 0xffffff, 0x1000000, 0x7fffffff, 0x80000000, 0xfffffffe, 0xffffffff, 6154412, 10058400, 99999999, 100000000}
 
 func (g *G) u32() uint32 {
+	if g.pin32 != nil {
+		return *g.pin32
+	}
 	switch g.r.Intn(4) {
 	case 0:
 		return u32Pool[g.r.Intn(len(u32Pool))]
